@@ -42,6 +42,136 @@ HUB = "netqasm.sdk.classical_communication.thread_socket.socket_hub"
 SOCK = "netqasm.sdk.classical_communication.thread_socket.socket"
 
 
+def check_receive(ctx, hub, rule="C18.E"):
+    """send and recv of the hub, executed by the checker's interpreter on a hub built from __init__ (no callbacks registered).
+
+    `sleep` is where a polling receive lets other threads run: the scripted sender acts inside it.  Required:
+      - a non-blocking receive on an empty queue raises at once - no sleep before it, whatever the timeout argument is - and it is
+        not a timeout error; on a non-empty queue it returns the head without sleeping;
+      - a blocking receive polls: it returns the message that arrives during its k-th sleep (k = 1, 2) and no stale one; with a
+        timeout and no message it raises TimeoutError; the queue it reads is its own;
+      - what recv returns is what it removed from the head: three queued messages come out in sending order, each once, and a
+        message queued for the other direction or another socket id is not touched."""
+    from .. import circuit as C
+    repo = ctx.repo
+    m = hub.module
+    send, recv = hub.methods.get("send"), hub.methods.get("recv")
+    ctx.fn("_SocketHub.recv")
+    ctx.fn("_SocketHub.send")
+
+    class _Log:
+        _nqsa_model = True
+
+        def debug(self, *a_, **k_):
+            return None
+        info = warning = error = debug
+
+    def sock(me, peer, sid=0):
+        return C.Obj(None, {"key": (me, peer, sid), "remote_key": (peer, me, sid), "id": sid, "app_name": me, "remote_app_name": peer, "use_callbacks": False})
+
+    A_, B_, B1 = sock("alice", "bob"), sock("bob", "alice"), sock("bob", "alice", 1)
+
+    class DD(dict):
+        """the defaultdict(list) of the hub"""
+        def __missing__(self, k):
+            self[k] = []
+            return self[k]
+
+    def world(script=None):
+        """script: {sleep number: action} run inside that sleep of the receiver"""
+        o = C.object_from_init(repo, hub, {"_logger": _Log(), "_lock": _Log(), "_messages": DD(), "_recv_callbacks": {}, "_conn_lost_callbacks": {}}, kind="self")
+        clock, sleeps = [0.0], [0]
+        sc = C.Scenario()
+
+        def timer_():
+            clock[0] += 0.1
+            return clock[0]
+
+        def sleep_(*a_, **k_):
+            sleeps[0] += 1
+            act = (script or {}).get(sleeps[0])
+            if act is not None:
+                act(o, sc)
+            if sleeps[0] > 8:
+                raise C.EvalRaise("Deadlock", "nothing more will arrive")
+            return None
+
+        sc.externals.update({"timeit.default_timer": timer_, "time.sleep": sleep_})
+        return o, sc, sleeps
+
+    def do_send(o, sc, s_, msg):
+        return C.Interp(repo, ctx.ev, sc, hub).call_function(m, send, [s_, msg], {}, self_obj=o)
+
+    def do_recv(o, sc, s_, **kw):
+        try:
+            return ("ok", C.Interp(repo, ctx.ev, sc, hub).call_function(m, recv, [s_], kw, self_obj=o))
+        except C.EvalRaise as ex_:
+            return ("raises", ex_.exc_name)
+
+    bad = {}
+    n = 0
+    try:
+        # non-blocking
+        for timeout in (None, 0.05, 5.0):
+            n += 1
+            o, sc, sleeps = world()
+            do_send(o, sc, B_, "for alice")          # the other direction: must not be seen by bob
+            do_send(o, sc, sock("alice", "bob", 1), "for socket 1")
+            r_ = do_recv(o, sc, B_, block=False, timeout=timeout)
+            if r_[0] != "raises" or r_[1] in ("TimeoutError", "Deadlock"):
+                bad.setdefault("non-blocking-empty-raises", f"recv(block=False, timeout={timeout}) on an empty queue gives {r_}; it must report emptiness (an error that is not a timeout)")
+            if sleeps[0]:
+                bad.setdefault("no-sleep-or-loop-before-the-raise", f"recv(block=False, timeout={timeout}) on an empty queue sleeps {sleeps[0]} time(s) before it answers")
+            n += 1
+            o, sc, sleeps = world()
+            do_send(o, sc, A_, "m1")
+            do_send(o, sc, A_, "m2")
+            r_ = do_recv(o, sc, B_, block=False, timeout=timeout)
+            if r_ != ("ok", "m1") or sleeps[0]:
+                bad.setdefault("returns-the-popped-head", f"two messages queued, recv(block=False) gives {r_} after {sleeps[0]} sleeps; expected the first one at once")
+        # FIFO, each once, own queue only
+        n += 1
+        o, sc, sleeps = world()
+        for msg in ("m1", "", "m3"):                      # the empty string is a message like any other
+            do_send(o, sc, A_, msg)
+        do_send(o, sc, B_, "to alice")
+        do_send(o, sc, sock("alice", "bob", 1), "socket 1")
+        got = [do_recv(o, sc, B_, block=False) for _ in range(4)]
+        if [g_[1] for g_ in got[:3]] != ["m1", "", "m3"] or got[3][0] != "raises":
+            bad.setdefault("returns-the-popped-head", f"'m1', '', 'm3' sent; four receives give {got}")
+        others = (do_recv(o, sc, A_, block=False), do_recv(o, sc, B1, block=False))
+        if others != (("ok", "to alice"), ("ok", "socket 1")):
+            bad.setdefault("emptiness-tested-on-own-queue-each-iteration", f"the messages for the other direction / the other socket id are now {others}: a receive touched a queue that is not its own")
+        # blocking receive polls afresh
+        for arrive_at in (1, 2):
+            n += 1
+            o, sc, sleeps = world({arrive_at: lambda o_, sc_: do_send(o_, sc_, A_, "late")})
+            r_ = do_recv(o, sc, B_, block=True, timeout=None)
+            if r_ != ("ok", "late") or sleeps[0] != arrive_at:
+                bad.setdefault("emptiness-tested-on-own-queue-each-iteration", f"a message arriving during sleep {arrive_at} of a blocking receive: recv gives {r_} after {sleeps[0]} sleeps")
+        n += 1
+        o, sc, sleeps = world()
+        r_ = do_recv(o, sc, B_, block=True, timeout=0.25)
+        if r_ != ("raises", "TimeoutError"):
+            bad.setdefault("blocking-receive-times-out", f"recv(block=True, timeout=0.25) with nothing sent gives {r_} after {sleeps[0]} sleeps; expected TimeoutError")
+        n += 1
+        o, sc, sleeps = world()
+        r_ = do_recv(o, sc, B_, block=True, timeout=None)
+        if r_ != ("raises", "Deadlock"):
+            bad.setdefault("blocking-receive-times-out", f"recv(block=True, timeout=None) with nothing sent gives {r_}; it has to keep polling")
+    except AnalysisError as ex_:
+        ctx.error(rule, f"send / recv cannot be evaluated: {ex_}")
+        return
+    ctx.anchor(rule, "receive histories executed", n, 10)
+    texts = {"non-blocking-empty-raises": "a non-blocking receive on an empty channel must report emptiness",
+             "no-sleep-or-loop-before-the-raise": "the non-blocking receive would block",
+             "emptiness-tested-on-own-queue-each-iteration": "the queue inspected by recv is not its own queue, looked at afresh on every poll",
+             "returns-the-popped-head": "recv does not return exactly the message it removed from the head of the queue",
+             "blocking-receive-times-out": "a blocking receive does not poll until the timeout"}
+    for key, text in texts.items():
+        ctx.check(rule, f"recv:{key}", key not in bad, f"{text}: {bad.get(key)}", repo.loc(m, recv))
+
+
 def check_rendezvous(ctx, hub, rule="C18.R"):
     """"Two endpoints find each other whichever side starts first", decided on the registry code by executing it.
 
@@ -315,69 +445,8 @@ def run(ctx):
     mn, mx = cfg.count_on_paths(deliver)
     ctx.check("C18.K", "send:at-most-one-delivery-per-path", mx == 1, f"a send delivers between {mn} and {mx} times on its paths (callback call or queue append); more than one is a duplicate", repo.loc(m, send),
               sample={"deliveries per path": [mn, mx]})
-    # ---- C18.E
-    ctx.fn("_SocketHub.recv")
-    rp = A.param_names(recv)
-    blockp = rp[2] if len(rp) > 2 else "block"
-    import networkx as nx
-
-    def empty_fact(t, pol):
-        """does the fact (t, pol) say that the queue is empty?  decided by evaluating t on an empty and on a non-empty queue"""
-        try:
-            on_empty = bool(G.peval(t, {"messages": []}))
-            on_full = bool(G.peval(t, {"messages": [G.Sym("msg")]}))
-        except Unknown:
-            return False
-        return on_empty != on_full and on_empty == pol
-
-    def nonblocking_fact(t, pol):
-        return (A.norm(t) == blockp and not pol)
-
-    raises = []
-    for n in ast.walk(recv):
-        if isinstance(n, ast.Raise):
-            facts = G.path_conditions(recv, n)
-            if any(empty_fact(t, pol) for t, pol in facts) and any(nonblocking_fact(t, pol) for t, pol in facts) \
-                    and all(empty_fact(t, pol) or nonblocking_fact(t, pol) or (isinstance(t, ast.Constant) and bool(t.value) == pol) for t, pol in facts):
-                raises.append(n)  # and under no further condition
-    ctx.check("C18.E", "recv:non-blocking-empty-raises", len(raises) == 1, f"found {len(raises)} raise statements under (queue empty and not {blockp}); a non-blocking receive on an empty channel must report emptiness", repo.loc(m, recv))
-    if raises:
-        r = raises[0]
-        cfg = F.CFG(recv)
-        fetch = [st for st in A.body_nodes(recv) if isinstance(st, ast.Assign) and A.norm(st.targets[0]) == "messages"]
-        sleeps = [st for st in A.body_nodes(recv) if isinstance(st, ast.stmt) and not isinstance(st, (ast.While, ast.For, ast.If, ast.With, ast.Try)) and any(isinstance(c, ast.Call) and A.call_name(c) in ("sleep", "wait") for c in ast.walk(st))]
-        rn = cfg.stmt_containing(r) if cfg.node(r) is None else cfg.node(r)
-        bad = []
-        if len(fetch) == 1 and rn is not None:
-            g2 = cfg.g.copy()
-            fnode = cfg.node(fetch[0])
-            if fnode is not None:
-                g2.remove_node(fnode)
-            for sl in sleeps:
-                sn = cfg.node(sl)
-                if sn is not None and sn in g2 and rn in g2 and nx.has_path(g2, sn, rn):
-                    bad.append(sl)
-            # and the emptiness is decided without sleeping first: from the fetch to the raise no path passes a sleep
-            for sl in sleeps:
-                sn = cfg.node(sl)
-                if sn is not None and fnode is not None and nx.has_path(cfg.g, fnode, sn) and nx.has_path(g2, sn, rn) and sl not in bad:
-                    bad.append(sl)
-        ctx.check("C18.E", "recv:no-sleep-or-loop-before-the-raise", len(fetch) == 1 and not bad, f"the raise for an empty queue can be reached after `{src(bad[0])[:50] if bad else 'no single fetch of the queue'}` without looking at the queue again: the non-blocking receive would block (or report a stale state)", repo.loc(m, r))
-        # the emptiness test reads the socket's own queue, fetched in the same iteration
-        loop = [n for n in ast.walk(recv) if isinstance(n, ast.While) and any(x is r for x in ast.walk(n))]
-        fresh = bool(loop) and any(isinstance(s_, ast.Assign) and A.norm(s_.targets[0]) == "messages" for st in loop[0].body for s_ in ast.walk(st))
-        ctx.check("C18.E", "recv:emptiness-tested-on-own-queue-each-iteration", fresh and keys_used(recv, "_messages") == {f"{rp[1]}.key"},
-                  f"the queue inspected by recv is {sorted(keys_used(recv, '_messages'))}, fetched inside the polling loop: {fresh}", repo.loc(m, recv), trivial=True)
-    # returned message = popped head
-    rets = [x for x in A.returns(recv) if x.value is not None]
-    d = {}
-    for n in ast.walk(recv):
-        if isinstance(n, ast.Assign) and isinstance(n.targets[0], ast.Name):
-            d.setdefault(n.targets[0].id, []).append(n.value)
-    ok = len(rets) == 1 and isinstance(rets[0].value, ast.Name) and len(d.get(rets[0].value.id, [])) == 1 and (
-        A.norm(d[rets[0].value.id][0]) == "messages.pop(0)"
-        or (A.norm(d[rets[0].value.id][0]) == "messages[0]" and any(isinstance(c, ast.Call) and A.norm(c) == "messages.pop(0)" for c in ast.walk(recv))))
-    ctx.check("C18.E", "recv:returns-the-popped-head", ok, "recv does not return exactly the message it popped from the head of the queue", repo.loc(m, recv))
+    # ---- C18.E  (abstract execution)
+    check_receive(ctx, hub)
     # the sleep is only on the path that continues polling (after the timeout test)
     # ---- C18.I
     ctx.fn("_SocketHub.connect")
@@ -398,11 +467,23 @@ def run(ctx):
                   sample={"register at statement": idx_cb, "publish at statement": idx_pub})
     # is_connected requires both keys; the socket-level send refuses when not connected
     ic = hub.methods.get("is_connected")
-    ok = False
     if ic is not None:
-        r = A.returns(ic)
-        ok = len(r) == 1 and "socket.key" in A.norm(r[0].value) and "socket.remote_key" in A.norm(r[0].value) and A.norm(r[0].value).startswith("all(") and "self._open_sockets" in A.norm(r[0].value)
-    ctx.check("C18.I", "is_connected:both-endpoints-open", ok, "is_connected is not `both key and remote_key are in _open_sockets`", repo.loc(m, ic) if ic else "")
+        # executed for every combination of the two keys being listed as open (and as "has been here"): true exactly when both are open
+        from .. import circuit as C
+        sock_ = C.Obj(None, {"key": ("a", "b", 0), "remote_key": ("b", "a", 0)})
+        got = {}
+        try:
+            for own in (False, True):
+                for peer in (False, True):
+                    for traces in (set(), {("a", "b", 0), ("b", "a", 0)}):
+                        o = C.object_from_init(repo, hub, {"_open_sockets": ({("a", "b", 0)} if own else set()) | ({("b", "a", 0)} if peer else set()) | {("c", "a", 0)}, "_remote_sockets": set(traces)}, kind="self")
+                        got[(own, peer, bool(traces))] = C.Interp(repo, ctx.ev, C.Scenario(), hub).call_function(m, ic, [sock_], {}, self_obj=o)
+            wrong = {k_: v_ for k_, v_ in got.items() if v_ is not (k_[0] and k_[1])}
+            ctx.check("C18.I", "is_connected:both-endpoints-open", not wrong, f"is_connected is not `both key and remote_key are in _open_sockets`: (own open, peer open, traces present) -> {wrong}", repo.loc(m, ic))
+        except C.EvalRaise as ex_:
+            ctx.check("C18.I", "is_connected:both-endpoints-open", False, f"is_connected raises {ex_}", repo.loc(m, ic))
+        except AnalysisError as ex_:
+            ctx.error("C18.I", f"is_connected cannot be evaluated: {ex_}")
     for meth in ("send", "send_structured", "send_silent"):
         fn = ts.methods.get(meth)
         if fn is None:
